@@ -440,6 +440,22 @@ def gen_config(rng, joint=None, small=True):
     if r2.random() < 0.08:
         cfg["eps"] = r2.choice([0.03, 0.08, 0.2])                      # a covariance floor that zeroes entries
         cfg["lam"] = r2.choice([0.0, 0.01, 0.05])
+    r3 = pyrandom.Random(cfg["seed"] ^ 0xF1A7)
+    if r3.random() < 0.07:
+        cfg["flat"] = [r3.choice([0.0, 0.3, 0.5, 1.0]), r3.choice([12, 20, 30]), r3.choice([6.0, -5.0, 9.0])]   # a stuck stretch
+    return cfg
+
+
+def flat_config(rng, joint=False):
+    """a configuration whose data contain a flat-lined stretch long enough to become a cluster of identical windows"""
+    cfg = gen_config(rng, joint=joint)
+    cfg.update({"K": 2 if rng.random() < 0.5 else 3, "W": rng.choice([1, 2, 2, 3]), "N": 2, "m": rng.choice([3, 5, 10]),
+                "limit": max(3, cfg["limit"]), "beta": 5.0, "eps": 0, "lam": 0.11,
+                "flat": [rng.choice([0.3, 0.5]), 30, rng.choice([6.0, -6.0])]})
+    if not joint:
+        cfg["lens"] = [cfg["W"] - 1 + rng.randint(120, 170)]
+    for k in ("dtype", "completion"):
+        cfg.pop(k, None)
     return cfg
 
 
@@ -473,6 +489,14 @@ def config_data(cfg):
     r = pyrandom.Random(cfg["data_seed"])
     series = [make_series(r, L, cfg["N"], regimes=cfg.get("regimes", 3), scale=cfg.get("scale", 1.0),
                           seg=(8, 30)) for L in cfg["lens"]]
+    if cfg.get("flat"):
+        # a flat-lined stretch: every sensor stuck at one reading for a run of rows (exactly repeated rows, hence
+        # exactly repeated windows: a cluster of identical windows has a zero covariance)
+        frac, length, level = cfg["flat"]
+        for s_ in series:
+            a = int(frac * max(0, s_.shape[0] - length))
+            if s_.shape[0] >= length + 2 * cfg["W"]:
+                s_[a:a + length, :] = level * cfg.get("scale", 1.0)
     if cfg.get("data_factor"):
         series = [s_ * cfg["data_factor"] for s_ in series]
     shift = cfg.get("shift")
